@@ -182,6 +182,10 @@ class InjBase(BaseException):
         self.id = id
 
 
+class Runaway(BaseException):
+    """The run did not terminate within the watchdog's bounds."""
+
+
 class CloseNow(BaseException):
     """Marker in a fault plan: the consumer closes the iterator at this yield."""
 
@@ -199,6 +203,8 @@ class Ctx:
     def use(self):
         n = self.uses
         self.uses += 1
+        if n > 4000:
+            raise Runaway("more than 4000 uses")
         if self.plan is not None and n == self.plan[0]:
             exc = self.plan[1]
             self.plan = None
@@ -373,6 +379,8 @@ def drive_tokens(coro, cancel_at=None, cancel_exc=None):
 
 
 def classify_exc(e):
+    if isinstance(e, Runaway):
+        return ("other", "Runaway")
     if isinstance(e, Inj):
         return ("inj", e.id, False)
     if isinstance(e, InjBase):
@@ -684,7 +692,25 @@ def plan_exc(kind):
     raise ValueError(kind)
 
 
+def _alarm(signum, frame):
+    raise Runaway("wall-clock watchdog")
+
+
 def run_impl(case, suspend=False, cancel_at=None, cancel_id=9):
+    """Run the asyncstdlib tool under a wall-clock watchdog."""
+    import signal
+    old = signal.signal(signal.SIGALRM, _alarm)
+    signal.setitimer(signal.ITIMER_REAL, 10.0)
+    try:
+        return _run_impl(case, suspend, cancel_at, cancel_id)
+    except Runaway as e:
+        return {"outcome": ("exn", ("other", "Runaway"), e), "log": [], "states": [], "uses": 0, "srcs": [], "ctx": Ctx(None), "obj": None, "tokens": []}
+    finally:
+        signal.setitimer(signal.ITIMER_REAL, 0)
+        signal.signal(signal.SIGALRM, old)
+
+
+def _run_impl(case, suspend=False, cancel_at=None, cancel_id=9):
     """Run the asyncstdlib tool on instrumented class-based sources. Returns dict(outcome, log, states, uses, srcs)."""
     plan = case.plan
     ctx = Ctx((plan[0], plan_exc(plan[1])) if plan else None)
